@@ -38,6 +38,27 @@ PROPS = {
         timeout_is_violation=True,
         **SIM,
     ),
+    "C15": dict(
+        level="exploration",
+        technique="stateful model-based property testing: generated fresh / out-of-order / replay / forgery histories produced by an independent RFC 8613 sender (ref/refoscore.h) against a libcoap OSCORE server, replay-window model as oracle; generated crash/restart histories of a libcoap OSCORE client with save callback, uniqueness of all Partial IVs on the wire as oracle",
+        level_text="Histories of 1..40 deliveries, replay window 1..63 and default, Appendix B.1.2 on and off, sequence numbers at every Partial IV length boundary, gaps 1..2^20; sender: ssn_freq 1..20, 1..4 lives, crash after any request.",
+        level_note="Trusted base: ref/refoscore.h + OpenSSL libcrypto (RFC 8613 Appendix C vectors checked at start-up), sim/sim.cc, the window model in props/C15.cc. A crash is modelled as 'nothing after the last save callback survives'; the save callback itself is assumed durable.",
+        quick=rc(12, 2500),
+        thorough=rc(14, 80000),
+        libs=["-lcrypto"],
+        **SIM,
+    ),
+    "C14": dict(
+        level="exploration",
+        technique="differential property testing against an independent RFC 8613 implementation (ref/refoscore.h on OpenSSL, validated by the RFC's Appendix C vectors): libcoap client vs reference server and reference client vs libcoap server over a virtual network; metamorphic tamper sweeps (bit flips, truncations, foreign contexts) with a handler-invocation oracle",
+        level_text="Generated security contexts (all id lengths 0..7, id context, salt, both AES-CCM key sizes, sequence numbers at every Partial IV length boundary up to 2^40), messages over the class E / class U option tables, "
+                   "payload 0..1024, requests, responses and Observe notifications; per case a tamper sweep over every bit of the OSCORE option value, the ciphertext edges and a sample of the rest.",
+        level_note="Trusted base: ref/refoscore.h + OpenSSL libcrypto (reproduces RFC 8613 C.1.1 and C.4 at start-up, otherwise the harness aborts), ref/refcodec.h, sim/sim.cc. Appendix B.1.2/B.2 negotiation is switched off here (C15 decides replay handling). Outer block-wise and Proxy-Uri splitting are not generated.",
+        quick=rc(12, 300),
+        thorough=rc(14, 8000),
+        libs=["-lcrypto"],
+        **SIM,
+    ),
     "C12": dict(
         level="exploration",
         technique="stateful simulation-based property testing: generated request / reference / async / observe / time-jump / teardown histories from up to 50 scripted peers against a libcoap server (and client) on a virtual network; event and handler log against a session model, typed-allocation table, ASan and LeakSanitizer as lifetime oracle",
